@@ -439,7 +439,11 @@ impl<T: RealNumber, M: Matrix<T>> LogisticRegression<T, M> {
             order: FunctionOrder::THIRD,
             ..Default::default()
         };
-        let optimizer: LBFGS<T> = Default::default();
+        // the multinomial objective has flat directions; 1000 iterations are not always enough
+        let optimizer: LBFGS<T> = LBFGS {
+            max_iter: 100_000,
+            ..Default::default()
+        };
 
         optimizer.optimize(&f, &df, &x0, &ls)
     }
